@@ -24,10 +24,11 @@ def rand_model(rng, names):
         kinds = rng.choice([["pauli"], ["depol"], ["pauli", "depol"], ["depol", "pauli"]])
         for k in kinds:
             if k == "pauli":
-                ps = rng.choice([[Fraction(1, 10), Fraction(0), Fraction(1, 20)], [Fraction(0)] * 3, [Fraction(1, 3)] * 3, [Fraction(1, 8), Fraction(1, 4), Fraction(1, 16)]])
+                ps = rng.choice([[Fraction(1, 10), Fraction(0), Fraction(1, 20)], [Fraction(0)] * 3, [Fraction(1, 3)] * 3, [Fraction(1, 8), Fraction(1, 4), Fraction(1, 16)],
+                                 [Fraction(1, 2000000), Fraction(0), Fraction(0)], [Fraction(9, 10000000), Fraction(3, 10000000), Fraction(0)]])      # tiny but valid rates
                 errs.append([g, "pauli", [frac_str(p) for p in ps]])
             else:
-                errs.append([g, "depol", frac_str(rng.choice([Fraction(0), Fraction(1, 10), Fraction(1, 2), Fraction(1), Fraction(3, 10)]))])
+                errs.append([g, "depol", frac_str(rng.choice([Fraction(0), Fraction(1, 10), Fraction(1, 2), Fraction(1), Fraction(3, 10), Fraction(8, 10000000), Fraction(1, 100000)]))])
     return errs
 
 
